@@ -236,3 +236,34 @@ Theorem C20_glibc_version_roundtrip :
   forall a b, glibc_version_of (Some (dec a ++ String "."%char (dec b))) = GOk (Some (Z.of_N a, Z.of_N b)).
 Proof. exact glibc_version_roundtrip. Qed.
 Print Assumptions C20_glibc_version_roundtrip.
+
+(* PEP 427 file names: name-version[-build]-python-abi-platform.whl is read back field by field, with
+   and without a build tag (fields contain neither "-" nor "/") *)
+Theorem C20_wheel_fields_roundtrip :
+  forall name ver build pyf abif platf,
+  field_ok name -> field_ok ver -> field_ok build -> field_ok pyf -> field_ok abif -> field_ok platf ->
+  wheel_fields_of (wheel_filename name ver build pyf abif platf)
+  = Some (mkWF name ver build pyf abif platf (wheel_filename name ver build pyf abif platf)).
+Proof. exact wheel_fields_roundtrip. Qed.
+Print Assumptions C20_wheel_fields_roundtrip.
+
+(* supported => eligible on the file name: the optional build tag only becomes extra_sort_info *)
+Theorem C20_supported_file_eligible_partial :
+  forall r t id v name ver build pyf abif platf,
+  field_ok name -> field_ok ver -> field_ok build -> field_ok pyf -> field_ok abif -> field_ok platf ->
+  wf_raw r = true -> In t (sys_tags r) ->
+  (legacy_arch (r_arch r) = true \/ is_legacy_name (snd t) = false) ->
+  wheel_has_tag pyf abif platf t ->
+  exists k, wheel_cand_of_filename id v (wheel_filename name ver build pyf abif platf) = Some k
+            /\ k_extra k = build /\ eligible (cfg_of r) k = true.
+Proof. exact supported_file_eligible. Qed.
+Print Assumptions C20_supported_file_eligible_partial.
+
+Theorem C20_foreign_file_rejected :
+  forall r id v name ver build pyf abif platf,
+  field_ok name -> field_ok ver -> field_ok build -> field_ok pyf -> field_ok abif -> field_ok platf ->
+  wf_raw r = true -> foreign_wheel r pyf abif platf ->
+  exists k, wheel_cand_of_filename id v (wheel_filename name ver build pyf abif platf) = Some k
+            /\ eligible (cfg_of r) k = false.
+Proof. exact foreign_file_rejected. Qed.
+Print Assumptions C20_foreign_file_rejected.
